@@ -446,6 +446,119 @@ def two_session_family(ctx, res):
 
 
 # ------------------------------------------------------------------------------------------------
+# one session, SEVERAL transfers under way (each on a data connection of its own), one ABOR: every one of them stops
+# ------------------------------------------------------------------------------------------------
+async def _several_transfers_case(loop, verbs, salt):
+    big = content(4096)
+    wd = W.World(loop, S.USERS_ANON, server_kwargs={"block_size": BS})
+    await wd.start()
+    out = {}
+    try:
+        wd.set_tree(S.TREE + [(("big%d.bin" % i,), big) for i in range(len(verbs))])
+        c = await wd.raw_client()
+        await W.run_line(wd, c, b"USER bob")
+        n0 = len(c.replies)
+        datas = []
+        for i, verb in enumerate(verbs):
+            c.data = None
+            await W.run_line(wd, c, b"EPSV")
+            await W.data_connect(wd, c)
+            dr, dw = c.data
+            c.data = None
+            sp = dw.transport.peer
+            if verb == "RETR":
+                sp.HIGH = 256
+                sp.hold = True  # the client reads nothing yet: the worker is stuck in the middle of the file
+                c.send_raw(b"RETR big%d.bin\r\n" % i)
+            else:
+                c.send_raw(b"STOR up%d.bin\r\n" % i)
+                await loop.settle()
+                dw.write(big[:1000])
+            await loop.settle()
+            datas.append((verb, dr, dw, sp))
+        out["marks"] = [int(x) for x, _ in c.replies[n0:] if x == "150"]
+        na = len(c.replies)
+        c.send_raw(b"ABOR\r\n")
+        await loop.settle()
+        await asyncio.sleep(1.0)
+        await loop.settle()
+        out["abor_replies"] = sorted(int(x) for x, _ in c.replies[na:])
+        out["left"] = []
+        for i, (verb, dr, dw, sp) in enumerate(datas):
+            if verb == "RETR":
+                sp.hold = False
+                sp._schedule_pump()
+                try:
+                    got = await asyncio.wait_for(dr.read(), 5)
+                    out["left"].append(("RETR", "closed", len(got) < len(big) and big.startswith(got)))
+                except asyncio.TimeoutError:
+                    out["left"].append(("RETR", "still-open", None))
+                except ConnectionError:
+                    out["left"].append(("RETR", "closed", True))
+            else:
+                try:
+                    dw.write(big[1000:])
+                    await loop.settle()
+                    eof = await asyncio.wait_for(dr.read(), 2)
+                    out["left"].append(("STOR", "closed", None))
+                except asyncio.TimeoutError:
+                    out["left"].append(("STOR", "still-open", None))
+                except ConnectionError:
+                    out["left"].append(("STOR", "closed", None))
+            dw.close()
+        await loop.settle()
+        await asyncio.sleep(1.0)
+        await loop.settle()
+        out["late_replies"] = [int(x) for x, _ in c.replies[na:]][len(out["abor_replies"]):]
+        out["stored_prefixes"] = [big.startswith(stored_bytes(wd.tree(), "up%d.bin" % i) or b"") and len(stored_bytes(wd.tree(), "up%d.bin" % i) or b"") <= 1000 for i, v in enumerate(verbs) if v == "STOR"]
+        out["follow"], _, _, _ = await W.run_line(wd, c, b"PWD")
+        c.close()
+        await loop.settle()
+    finally:
+        try:
+            await wd.stop()
+        except Exception:
+            wd.finish()
+    return out
+
+
+def _several_job(args):
+    try:
+        return simnet.run(_several_transfers_case, args[0], args[1], task_salt=args[1], wall_limit=60)
+    except BaseException as e:  # noqa
+        return "HARNESS-ERROR %s: %s" % (type(e).__name__, e)
+
+
+def _several_judge(inp, o):
+    if isinstance(o, str):
+        return None
+    n = len(inp["transfers"])
+    if len(o["marks"]) != n:
+        return None  # the server did not take that many transfers at once: nothing to judge here
+    want = sorted([426, 226] * n)
+    if o["abor_replies"] != want or o["late_replies"] or any(st != "closed" or ok is False for _, st, ok in o["left"]) or not all(o["stored_prefixes"]) or o["follow"] != [257]:
+        return {"input": inp, "what": "%d transfers under way in one session (%s), then ABOR: replies %r (want %r), later replies %r, data connections %r, stored prefixes ok %r, PWD -> %r" % (
+            n, "+".join(inp["transfers"]), o["abor_replies"], want, o["late_replies"], o["left"], o["stored_prefixes"], o["follow"]), "signature": "C14:abor-stops-only-some-of-the-transfers"}
+    return None
+
+
+def several_transfers_family(ctx, res):
+    for verbs in (["RETR", "RETR"], ["RETR", "STOR"], ["STOR", "RETR"], ["STOR", "STOR"], ["RETR", "RETR", "RETR"]):
+        for salt in ((0,) if not ctx.thorough() else (0, 1, 5)):
+            res.cases += 1
+            res.count("several_transfers_one_abor")
+            inp = {"kind": "several-transfers", "transfers": verbs, "task_salt": salt}
+            o = _several_job((verbs, salt))
+            if isinstance(o, str):
+                res.disagreements.append({"correspondence": "C14 several-transfers harness", "input": inp, "impl": o})
+                continue
+            res.distinct.add(("several", tuple(verbs), salt))
+            f = _several_judge(inp, o)
+            if f:
+                res.oracle_failures.append(f)
+
+
+# ------------------------------------------------------------------------------------------------
 # the client's half against a peer that is not aioftp
 # ------------------------------------------------------------------------------------------------
 FOREIGN_STYLES = [None, "hyph", "raw", "indent", "digits", "mixed"]
@@ -568,6 +681,7 @@ def _run(ctx, compare=True):
             else:
                 res.merge(r)
         two_session_family(ctx, res)
+        several_transfers_family(ctx, res)
         foreign_abort_family(ctx, res)
     finally:
         if old is None:
@@ -655,6 +769,12 @@ def replay(ctx, doc):
         o = _two_job((inp["transfer_of_the_other_session"], inp["when"], inp.get("task_salt", 0)))
         print(o)
         return isinstance(o, str) or o["a_replies"] != [226] or o["b_replies"] != [150, 226] or not o["b_ok"]
+    if inp.get("kind") == "several-transfers":
+        o = _several_job((inp["transfers"], inp.get("task_salt", 0)))
+        print(o)
+        f = _several_judge(inp, o)
+        print(f)
+        return f is not None
     if inp.get("kind") == "foreign-peer":
         o = _foreign_job((inp["reply_spelling"], inp["when"], inp.get("body_lines")))
         print(o)
